@@ -48,6 +48,8 @@ class ExprMixin:
             raise Unsupported('reference to %s' % rd['kind'])
         if k == 'UnaryOperator' and e['opcode'] == '*':
             p = self.rval(e['inner'][0])
+            if self.ct(e).kind == 'arr' and isinstance(p, Ptr) and p.region is not None and p.region.kind == 'arr':
+                return ('arrobj', p.region, p.off)      # *pointer-to-array: the array object at that offset
             return self.deref(p, e)
         if k == 'UnaryOperator' and e['opcode'] == '__extension__':
             return self.lval(e['inner'][0])
@@ -61,7 +63,13 @@ class ExprMixin:
                 it = self.ct(e['inner'][1])
             if not isinstance(b, Ptr) or isinstance(i, (Ptr, FuncPtr)):
                 raise Unsupported('subscript operands')
-            p = self.ptr_add(b, cast_int(i, it.signed, 64), e)
+            rt = self.ct(e)
+            p = self.ptr_add(b, self.scaled(cast_int(i, it.signed, 64), self.elems_of(rt)), e)
+            if rt.kind == 'arr':
+                self.check_nonnull(p, e)
+                if p.region.kind != 'arr':
+                    raise Unsupported('sub-array of %s region' % p.region.kind)
+                return ('arrobj', p.region, p.off)
             return self.deref(p, e)
         if k == 'MemberExpr':
             if e.get('isArrow'):
@@ -89,6 +97,19 @@ class ExprMixin:
         if k == 'PredefinedExpr':
             return self.lval(e['inner'][0])
         raise Unsupported('lvalue ' + k)
+
+    def scaled(self, v, n):
+        return v if n == 1 else v * bv(n, 64)
+
+    def elems_of(self, ct):
+        """how many elements of the underlying flat region one object of type ct spans"""
+        if ct.kind == 'arr':
+            from .exec import flat_count
+            n, _ = flat_count(ct)
+            if n is None:
+                raise Unsupported('array of unknown size')
+            return n
+        return 1
 
     def global_lval(self, d):
         raise Unsupported('global variable %s' % d.get('name'))
@@ -249,7 +270,7 @@ class ExprMixin:
         if ck == 'ArrayToPointerDecay':
             lv = self.lval(sub)
             if lv[0] == 'arrobj':
-                return Ptr(lv[1])
+                return Ptr(lv[1], lv[2] if len(lv) > 2 else None)
             raise Unsupported('decay of %s' % lv[0])
         if ck in ('FunctionToPointerDecay', 'BuiltinFnToFnPtr'):
             s = self._strip_parens(sub)
@@ -287,7 +308,10 @@ class ExprMixin:
         if r.kind == 'raw':
             return Ptr(self.retype(r, to, node), v.off)
         if r.kind == 'arr':
-            if to.kind == 'int' and to.bits == r.bits:
+            base = to
+            while base.kind == 'arr':
+                base = base.to
+            if base.kind == 'int' and base.bits == r.bits:
                 return v
             raise Unsupported('pointer cast from %d-bit elements to %r' % (r.bits, to))
         if r.kind == 'struct':
@@ -347,7 +371,7 @@ class ExprMixin:
             old = self.load(lv, sub, t)
             d = 1 if op == '++' else -1
             if isinstance(old, Ptr):
-                new = self.ptr_add(old, bv(d, 64), e)
+                new = self.ptr_add(old, bv(d * (self.elems_of(t.to) if t.kind == 'ptr' else 1), 64), e)
             else:
                 if t.signed:
                     one = bv(1, t.bits)
@@ -358,7 +382,9 @@ class ExprMixin:
             return old if e.get('isPostfix') else new
         if op == '&':
             lv = self.lval(sub)
-            if lv[0] in ('cell', 'struct', 'arrobj'):
+            if lv[0] == 'arrobj':
+                return Ptr(lv[1], lv[2] if len(lv) > 2 else None)
+            if lv[0] in ('cell', 'struct'):
                 return Ptr(lv[1])
             if lv[0] == 'elem':
                 return Ptr(lv[1], lv[2])
@@ -482,12 +508,13 @@ class ExprMixin:
     def binop(self, op, a, b, lt, rt, t, e):
         pa, pb = isinstance(a, Ptr), isinstance(b, Ptr)
         if pa or pb:
+            sc = self.elems_of(t.to) if t.kind == 'ptr' else 1
             if op == '+' and pa and not pb:
-                return self.ptr_add(a, cast_int(b, rt.signed, 64), e)
+                return self.ptr_add(a, self.scaled(cast_int(b, rt.signed, 64), sc), e)
             if op == '+' and pb and not pa:
-                return self.ptr_add(b, cast_int(a, lt.signed, 64), e)
+                return self.ptr_add(b, self.scaled(cast_int(a, lt.signed, 64), sc), e)
             if op == '-' and pa and not pb:
-                return self.ptr_add(a, -cast_int(b, rt.signed, 64), e)
+                return self.ptr_add(a, -self.scaled(cast_int(b, rt.signed, 64), sc), e)
             if op in ('==', '!=') and pa and pb:
                 if a.region is None or b.region is None:
                     c = z3.BoolVal(a.region is b.region)
